@@ -181,17 +181,23 @@ class Ctx(object):
         return self._driver
 
     def _load_known(self):
-        p = os.path.join(VERIF, 'known_findings.json')
-        try:
-            with open(p) as f:
-                return [e for e in json.load(f)['findings']
-                        if e.get('status') == 'known']
-        except OSError:
-            return []
+        import glob
+        res = []
+        for p in [os.path.join(VERIF, 'known_findings.json')] + sorted(
+                glob.glob(os.path.join(VERIF, 'known_findings.d', '*.json'))):
+            try:
+                with open(p) as f:
+                    res += [e for e in json.load(f)['findings']
+                            if e.get('status') == 'known']
+            except OSError:
+                pass
+        return res
 
     # ------------------------------------------------------------ Tie A
     def translate(self, names):
         """Regenerate Gen/<Name>.lean for each translator name."""
+        from vlib import genroot
+        genroot.generate()
         ok = True
         for name in names:
             try:
@@ -446,6 +452,9 @@ class Ctx(object):
 
 def run_check(prop, tier, seed, replay=None):
     sys.path.insert(0, VERIF)
+    if os.environ.get('VERIF_REPO'):
+        # run against a scratch copy of the repository (mutation testing of the checks)
+        sys.path.insert(0, REPO)
     ctx = Ctx(prop, tier, seed)
     mod = ctx.mod
     try:
